@@ -6,7 +6,7 @@ from ..symx import run_paths
 from ..lin import Form
 from ..cfg import CFG
 from .. import storage
-from ..pathcond import rimplied
+from ..pathcond import rimplied, implied
 
 MANIFEST = {
     'technique': "must-follow rule on every re-binding of a stream's indexer or of the indexer's data (phase views and equilibrium caches must be refreshed or dropped); "
@@ -375,20 +375,45 @@ def views(ctx, d4):
         d4.ok('MultiStream.__getitem__', 'view = get_phase(phase) over the shared thermal condition, memoised per phase', f)
     else:
         d4.fail('MultiStream.__getitem__', 'view-shape', 'phase view is not built from get_phase(phase) and the shared thermal condition', f, f.node)
+    # get_phase: the value returned is <ChemicalIndexer>.from_data(<the row object of that phase>, LockedPhase(phase), chemicals, check_data=False)
+    from ..resolve import resolved, path_defs
     g = prog.method('MaterialIndexer', 'get_phase', rel=IX)
-    r = [n for n in walk_no_nested(g.node) if isinstance(n, ast.Return)]
-    t = src(r[0].value) if r else ''
-    full = ' '.join(ast.unparse(g.node).split())
-    if 'self.data.rows[self.get_phase_index(phase)]' in full and 'LockedPhase(phase)' in full and full.rstrip().endswith('False)'):
+    gps, _ = run_paths(prog.normal_form(g), follow_except=False)
+    gps = [p for p in gps if not p.raised]
+    okg = bool(gps)
+    ph = g.params[1]
+    for p in gps:
+        rv = resolved(p.ret_node.value, path_defs(p), keep=set(g.params)) if p.ret_node is not None and p.ret_node.value is not None else None
+        if not (isinstance(rv, ast.Call) and isinstance(rv.func, ast.Attribute) and rv.func.attr == 'from_data' and rv.args):
+            okg = False
+            continue
+        a0 = rv.args[0]
+        row = isinstance(a0, ast.Subscript) and src(a0.value) == 'self.data.rows' and src(a0.slice) in ('self.get_phase_index(%s)' % ph, 'self._phase_indexer(%s)' % ph)
+        locked = len(rv.args) > 1 and isinstance(rv.args[1], ast.Call) and src(rv.args[1].func) == 'LockedPhase' and [src(x) for x in rv.args[1].args] == [ph]
+        unchecked = (len(rv.args) > 3 and isinstance(rv.args[3], ast.Constant) and rv.args[3].value is False) \
+            or any(k.arg == 'check_data' and isinstance(k.value, ast.Constant) and k.value.value is False for k in rv.keywords)
+        okg = okg and row and locked and unchecked
+    if okg:
         d4.ok('MaterialIndexer.get_phase', 'wraps the row object itself (no copy, no data check) with a locked phase', g)
     else:
         d4.fail('MaterialIndexer.get_phase', 'row-copy', 'get_phase does not wrap the row object itself with a locked phase', g, g.node)
+    # from_data keeps a SparseVector it is given: it goes through sparse_vector(data), which returns its argument itself on the
+    # path where the argument already is a sparse vector and no copy was asked for
     h = prog.method('ChemicalIndexer', 'from_data', rel=IX)
-    full = ' '.join(ast.unparse(h.node).split())
-    if 'sparse_vector(data)' in full:
+    uses = [n for n in walk_no_nested(prog.normal_form(h)) if isinstance(n, ast.Call) and src(n.func) == 'sparse_vector' and len(n.args) == 1 and not n.keywords
+            and src(n.args[0]) == h.params[1]]
+    if uses:
         sv = prog.func('thermosteam/base/sparse.py', 'sparse_vector')
-        t2 = ' '.join(ast.unparse(sv.node).split())
-        if re.search(r'if arr\.__class__ is SparseVector:\s*return arr', t2) or 'return arr' in t2:
+        sps, _ = run_paths(prog.normal_form(sv), follow_except=False)
+        ap = sv.params[0]
+        passes = False
+        for p in sps:
+            if p.raised or p.ret is None:
+                continue
+            cp = implied(p.conds, lambda t: src(t) == sv.params[1])
+            if p.ret == Form.atom(ap) and cp is not True and not [e for e in p.events if e.kind in ('store', 'augstore')]:
+                passes = True
+        if passes:
             d4.ok('ChemicalIndexer.from_data', 'sparse_vector() passes an existing SparseVector through unchanged (the view shares the row)', h)
         else:
             d4.fail('ChemicalIndexer.from_data', 'copies', 'from_data copies the row it is given', h, h.node)
